@@ -213,7 +213,9 @@ func (h *harness) genSession(table string, g *simrt.Stream) []sessOp {
 		case 0:
 			ops = append(ops, sessOp{kind: "begin", n: g.Choose(2)})
 		case 1:
-			q := []string{table, table + " sort k", table + " sort reverse k", table + " where v is 'v1'", table + " where k > 'k2' sort v", table + " project k,v sort k"}[g.Choose(6)]
+			qs := []string{table, table + " sort k", table + " sort reverse k", table + " where v is 'v1'", table + " where k > 'k2' sort v", table + " project k,v sort k",
+				table + " project k,v,x sort k", table + " remove w", table + " project k,x", table + " remove v,w sort reverse k"}
+			q := qs[g.Choose(len(qs))]
 			ops = append(ops, sessOp{kind: "query", text: q})
 		case 2:
 			ops = append(ops, sessOp{kind: "get", dir: []core.Dir{core.Next, core.Next, core.Prev}[g.Choose(3)], n: g.Range(1, 5)})
@@ -225,7 +227,7 @@ func (h *harness) genSession(table string, g *simrt.Stream) []sessOp {
 			} else if g.Coin(1, 4) {
 				big = g.Choose(5000)
 			}
-			ops = append(ops, sessOp{kind: "output", rec: mkrec(fmt.Sprintf("k%d", key), fmt.Sprintf("v%d", g.Choose(3)), ""), big: big})
+			ops = append(ops, sessOp{kind: "output", rec: mkrec(fmt.Sprintf("k%d", key), fmt.Sprintf("v%d", g.Choose(3)), "", fmt.Sprintf("x%d", g.Choose(3))), big: big})
 		case 4:
 			ops = append(ops, sessOp{kind: "update", text: fmt.Sprintf("v%d", g.Choose(3))})
 		case 5:
@@ -245,7 +247,7 @@ func (h *harness) genSession(table string, g *simrt.Stream) []sessOp {
 			ops = append(ops, sessOp{kind: "getone", text: q, dir: []core.Dir{core.Only, core.Next, core.Prev, core.Any}[g.Choose(4)]})
 		case 9:
 			if g.Coin(1, 2) {
-				ops = append(ops, sessOp{kind: "admin", text: []string{"alter " + table + " create (z)", "alter " + table + " create index(w)", "ensure " + table + " (y)", "create " + table + " (a) key(a)", "alter " + table + " drop (z)"}[g.Choose(5)]})
+				ops = append(ops, sessOp{kind: "admin", text: []string{"alter " + table + " create (z)", "alter " + table + " create index(w)", "ensure " + table + " (y)", "create " + table + " (a) key(a)", "alter " + table + " drop (z)", "alter " + table + " drop (w)"}[g.Choose(6)]})
 			} else {
 				ops = append(ops, sessOp{kind: "think", think: time.Duration(g.Choose(3000)) * time.Millisecond})
 			}
@@ -326,7 +328,7 @@ func (sd *side) do(o sessOp, table string, bigval string) (res string) {
 			q := sd.tran.Query(table, nil)
 			rec := o.rec
 			if o.big > 0 {
-				rec = mkrec(strings.TrimPrefix(o.rec.GetRaw(0), string(rune(core.PackString))), "v0", bigval[:o.big])
+				rec = mkrec(strings.TrimPrefix(o.rec.GetRaw(0), string(rune(core.PackString))), "v0", bigval[:o.big], "xb")
 			}
 			q.Output(sd.th, rec)
 			q.Close()
@@ -337,7 +339,7 @@ func (sd *side) do(o sessOp, table string, bigval string) (res string) {
 				return
 			}
 			old := sd.last[0].Record
-			nr := mkrec(strings.TrimPrefix(old.GetRaw(0), string(rune(core.PackString))), o.text, "u")
+			nr := mkrec(strings.TrimPrefix(old.GetRaw(0), string(rune(core.PackString))), o.text, "u", "xu")
 			off := sd.tran.Update(sd.th, table, sd.last[0].Off, nr)
 			sd.last = core.Row{core.DbRec{Record: nr, Off: off}}
 			res = "ok"
@@ -438,15 +440,21 @@ func (h *harness) runC40() {
 	dbms.VerifStartServer()
 	nsess := g.Range(1, 4)
 	bigval := strings.Repeat("0123456789abcdef", 60000)
+	// one of the initial rows may be large (large rows take their own paths in the server)
+	initBig, initBigLen := g.Choose(12), 10_000+g.Choose(60_000)
 	// identical initial contents
 	for i := 0; i < nsess; i++ {
 		tbl := fmt.Sprintf("s%d", i)
 		for _, e := range []*env{srv, twin} {
-			e.dl.Admin(fmt.Sprintf("create %s (k,v,w) key(k) index(v)", tbl), nil)
+			e.dl.Admin(fmt.Sprintf("create %s (k,v,w,x) key(k) index(v)", tbl), nil)
 			t := e.dl.Transaction(true)
 			q := t.Query(tbl, nil)
 			for r := 0; r < 6; r++ {
-				q.Output(setupTh, mkrec(fmt.Sprintf("k%d", r), fmt.Sprintf("v%d", r%3), ""))
+				w := ""
+				if r == initBig {
+					w = bigval[:initBigLen]
+				}
+				q.Output(setupTh, mkrec(fmt.Sprintf("k%d", r), fmt.Sprintf("v%d", r%3), w, fmt.Sprintf("x%d", r)))
 			}
 			if res := t.Complete(); res != "" {
 				s.Machine("setup commit failed: %s", res)
@@ -579,10 +587,119 @@ func (h *harness) runC41() {
 		tokens = append(tokens, gs.Token())
 	}
 	var otherNonces []string
+	var nrefused, nallowed int64
 
+	// refused sends one request that an unauthenticated connection must not be served
+	// (kind 3: a typed call, kind 4: a raw command referring to a transaction, query or cursor)
+	refused := func(sess rawSession, th *core.Thread, gs2 *simrt.Stream, who string, c int, kind int) bool {
+		switch kind {
+		case 3: // requests that must be refused: typed calls
+			name := ""
+			res := try(func() {
+				switch gs2.Choose(17) {
+				case 0:
+					name = "Admin"
+					sess.Admin("create hacked (a) key(a)", nil)
+				case 1:
+					name = "Check"
+					sess.Check(false)
+				case 2:
+					name = "Connections"
+					sess.Connections()
+				case 3:
+					name = "Cursor"
+					sess.Cursor("data", nil)
+				case 4:
+					name = "Cursors"
+					sess.Cursors()
+				case 5:
+					name = "Exec"
+					sess.Exec(th, core.SuObjectOf(core.SuStr("Database.Schema"), core.SuStr("data")))
+				case 6:
+					name = "Final"
+					sess.Final()
+				case 7:
+					name = "Get"
+					sess.Get(th, core.SuObjectOf(core.SuStr("data")), core.Any)
+				case 8:
+					name = "Info"
+					sess.Info()
+				case 9:
+					name = "Kill"
+					sess.Kill("good-session")
+				case 10:
+					name = "Log"
+					sess.Log("hello")
+				case 11:
+					name = "Run"
+					sess.Run(th, "1 + 1")
+				case 12:
+					name = "Size"
+					sess.Size()
+				case 13:
+					name = "Timestamp"
+					sess.Timestamp()
+				case 14:
+					name = "Token"
+					tok := sess.Token()
+					tokens = append(tokens, tok) // if it was handed out, using it is the next step
+				case 15:
+					name = "Transaction"
+					sess.Transaction(gs2.Coin(1, 2))
+				case 16:
+					name = "Transactions"
+					sess.Transactions()
+				}
+			})
+			h.logf("%s %s -> %s", who, name, orOK(res))
+			if res == "" {
+				h.fail("C41/not-refused", "C41/not-refused/"+name, "unauthenticated connection %d (%s): %s was not refused", c, who, name)
+				return false
+			}
+			atomicAdd(&nrefused)
+		case 4: // raw commands that refer to transactions, queries and cursors
+			cmds := []commands.Command{commands.Abort, commands.Commit, commands.Erase, commands.Update, commands.Query,
+				commands.Action, commands.ReadCount, commands.WriteCount, commands.Asof, commands.Close, commands.Header,
+				commands.Keys, commands.Order, commands.Rewind, commands.Strategy, commands.Get, commands.Output}
+			cmd := cmds[gs2.Choose(len(cmds))]
+			id := gs2.Choose(4)
+			res := try(func() {
+				wb := sess.PutCmd(cmd)
+				switch cmd {
+				case commands.Abort, commands.Commit, commands.ReadCount, commands.WriteCount:
+					wb.PutInt(id)
+				case commands.Erase:
+					wb.PutInt(id).PutStr("data").PutInt64(100)
+				case commands.Update:
+					wb.PutInt(id).PutStr("data").PutInt64(100).PutRec(mkrec("k0", "hacked"))
+				case commands.Query:
+					wb.PutInt(id).PutStr("data")
+				case commands.Action:
+					wb.PutInt(id).PutStr("delete data")
+				case commands.Asof:
+					wb.PutInt(id).PutInt64(1)
+				case commands.Close, commands.Header, commands.Keys, commands.Order, commands.Rewind:
+					wb.PutInt(id).PutByte([]byte{'q', 'c'}[gs2.Choose(2)])
+				case commands.Strategy:
+					wb.PutInt(id).PutByte('q').PutBool(false)
+				case commands.Get:
+					wb.PutByte('+').PutInt(id).PutInt(id)
+				case commands.Output:
+					wb.PutInt(id).PutRec(mkrec("k9", "hacked"))
+				}
+				sess.Request()
+			})
+			h.logf("%s raw %v id=%d -> %s", who, cmd, id, orOK(res))
+			if res == "" {
+				h.fail("C41/not-refused", "C41/not-refused/"+cmd.String(), "unauthenticated connection %d (%s): raw command %v (id %d) was not refused", c, who, cmd, id)
+				return false
+			}
+			atomicAdd(&nrefused)
+		}
+		return true
+	}
 	nbad := g.Range(1, 3)
 	var wg simsync.WaitGroup
-	var nrefused, nallowed int64
 	for c := 0; c < nbad; c++ {
 		c := c
 		cc := h.dial(srv, fmt.Sprintf("bad%d", c), g.Coin(1, 2))
@@ -590,9 +707,45 @@ func (h *harness) runC41() {
 			return
 		}
 		gs2 := s.Tape.Stream(fmt.Sprintf("bad%d", c))
+		// a second session on the same unauthenticated connection, which keeps sending requests
+		// that must be refused while the first one tries to authenticate. It is stopped (no
+		// request in flight) before an attempt that may legitimately succeed.
+		var sideMu simsync.Mutex
+		sideStop := false
+		quiesceSide := func() {
+			sideMu.Lock()
+			sideStop = true
+			sideMu.Unlock()
+		}
+		if g.Coin(1, 2) {
+			gs3 := s.Tape.Stream(fmt.Sprintf("bad%d-side", c))
+			wg.Add(1)
+			s.GoNamed(fmt.Sprintf("unauth%d-side", c), func() {
+				defer wg.Done()
+				sess := cc.newSession().(rawSession)
+				th := core.NewThread(nil)
+				who := fmt.Sprintf("bad%d-side", c)
+				for i := gs3.Range(3, 40); i > 0 && !s.Over(); i-- {
+					if gs3.Coin(1, 3) {
+						simrt.Sleep(time.Duration(gs3.Choose(400)) * time.Millisecond)
+					}
+					sideMu.Lock()
+					if sideStop {
+						sideMu.Unlock()
+						return
+					}
+					ok := refused(sess, th, gs3, who, c, 3+gs3.Choose(2))
+					sideMu.Unlock()
+					if !ok {
+						return
+					}
+				}
+			})
+		}
 		wg.Add(1)
 		s.GoNamed(fmt.Sprintf("unauth%d", c), func() {
 			defer wg.Done()
+			defer quiesceSide()
 			sess := cc.newSession().(rawSession)
 			th := core.NewThread(nil)
 			authorized := false
@@ -629,7 +782,7 @@ func (h *harness) runC41() {
 					atomicAdd(&nallowed)
 					h.logf("bad%d allowed request -> %s", c, orOK(res))
 				case 2: // authentication attempts
-					what := gs2.Pick(3, 2, 2, 2, 2, 2)
+					what := gs2.Pick(3, 2, 2, 2, 2, 2, 2)
 					var data string
 					expect := false
 					desc := ""
@@ -670,6 +823,12 @@ func (h *harness) runC41() {
 						tokens = append(tokens[:k], tokens[k+1:]...)
 					case 5:
 						data, desc = "", "empty"
+					case 6:
+						// a user that does not exist has no password hash
+						data, desc = authString(fmt.Sprintf("nobody%d", gs2.Choose(3)), "", myNonce), "unknown user with an empty password hash over own nonce"
+					}
+					if expect || desc == "skip" {
+						quiesceSide()
 					}
 					ok := false
 					res := try(func() { ok = sess.Auth(th, data) })
@@ -694,108 +853,10 @@ func (h *harness) runC41() {
 					if ok {
 						authorized = true
 					}
-				case 3: // requests that must be refused: typed calls
-					name := ""
-					res := try(func() {
-						switch gs2.Choose(17) {
-						case 0:
-							name = "Admin"
-							sess.Admin("create hacked (a) key(a)", nil)
-						case 1:
-							name = "Check"
-							sess.Check(false)
-						case 2:
-							name = "Connections"
-							sess.Connections()
-						case 3:
-							name = "Cursor"
-							sess.Cursor("data", nil)
-						case 4:
-							name = "Cursors"
-							sess.Cursors()
-						case 5:
-							name = "Exec"
-							sess.Exec(th, core.SuObjectOf(core.SuStr("Database.Schema"), core.SuStr("data")))
-						case 6:
-							name = "Final"
-							sess.Final()
-						case 7:
-							name = "Get"
-							sess.Get(th, core.SuObjectOf(core.SuStr("data")), core.Any)
-						case 8:
-							name = "Info"
-							sess.Info()
-						case 9:
-							name = "Kill"
-							sess.Kill("good-session")
-						case 10:
-							name = "Log"
-							sess.Log("hello")
-						case 11:
-							name = "Run"
-							sess.Run(th, "1 + 1")
-						case 12:
-							name = "Size"
-							sess.Size()
-						case 13:
-							name = "Timestamp"
-							sess.Timestamp()
-						case 14:
-							name = "Token"
-							tok := sess.Token()
-							tokens = append(tokens, tok) // if it was handed out, using it is the next step
-						case 15:
-							name = "Transaction"
-							sess.Transaction(gs2.Coin(1, 2))
-						case 16:
-							name = "Transactions"
-							sess.Transactions()
-						}
-					})
-					h.logf("bad%d %s -> %s", c, name, orOK(res))
-					if res == "" {
-						h.fail("C41/not-refused", "C41/not-refused/"+name, "unauthenticated connection %d: %s was not refused", c, name)
+				case 3, 4:
+					if !refused(sess, th, gs2, fmt.Sprintf("bad%d", c), c, kind) {
 						return
 					}
-					atomicAdd(&nrefused)
-				case 4: // raw commands that refer to transactions, queries and cursors
-					cmds := []commands.Command{commands.Abort, commands.Commit, commands.Erase, commands.Update, commands.Query,
-						commands.Action, commands.ReadCount, commands.WriteCount, commands.Asof, commands.Close, commands.Header,
-						commands.Keys, commands.Order, commands.Rewind, commands.Strategy, commands.Get, commands.Output}
-					cmd := cmds[gs2.Choose(len(cmds))]
-					id := gs2.Choose(4)
-					res := try(func() {
-						wb := sess.PutCmd(cmd)
-						switch cmd {
-						case commands.Abort, commands.Commit, commands.ReadCount, commands.WriteCount:
-							wb.PutInt(id)
-						case commands.Erase:
-							wb.PutInt(id).PutStr("data").PutInt64(100)
-						case commands.Update:
-							wb.PutInt(id).PutStr("data").PutInt64(100).PutRec(mkrec("k0", "hacked"))
-						case commands.Query:
-							wb.PutInt(id).PutStr("data")
-						case commands.Action:
-							wb.PutInt(id).PutStr("delete data")
-						case commands.Asof:
-							wb.PutInt(id).PutInt64(1)
-						case commands.Close, commands.Header, commands.Keys, commands.Order, commands.Rewind:
-							wb.PutInt(id).PutByte([]byte{'q', 'c'}[gs2.Choose(2)])
-						case commands.Strategy:
-							wb.PutInt(id).PutByte('q').PutBool(false)
-						case commands.Get:
-							wb.PutByte('+').PutInt(id).PutInt(id)
-						case commands.Output:
-							wb.PutInt(id).PutRec(mkrec("k9", "hacked"))
-						}
-						sess.Request()
-					})
-					h.logf("bad%d raw %v id=%d -> %s", c, cmd, id, orOK(res))
-					if res == "" {
-						h.fail("C41/not-refused", "C41/not-refused/"+cmd.String(), "unauthenticated connection %d: raw command %v (id %d) was not refused", c, cmd, id)
-						return
-					}
-					atomicAdd(&nrefused)
 				}
 			}
 		})
